@@ -157,6 +157,11 @@ async def scenario(loop, plan, r):
             if r.violations:
                 return
             continue
+        if kind == "wipe-startup":
+            # the NCP rebooted and lost its table; the application starts the multicast layer again on the SAME object
+            sim.table = [(0, 0)] * sim.size
+            r.cls("table-wiped-then-startup")
+            kind = "startup"
         if kind == "startup":
             groups, answers = op[1], op[2]
             sim.answers = [a if a in ("ok", "timeout") else ["rej", a[1]] for a in answers]
@@ -286,15 +291,15 @@ def plans(draw):
     table = draw(st.permutations(table))
     ops = []
     for _ in range(draw(st.integers(1, 12))):
-        kind = draw(st.sampled_from(["sub", "sub", "sub", "unsub", "unsub", "unsub", "startup", "restart"]))
+        kind = draw(st.sampled_from(["sub", "sub", "sub", "unsub", "unsub", "unsub", "startup", "restart", "wipe-startup"]))
         if kind == "restart":
             ops.append(["restart"])
         elif draw(st.integers(0, 5)) == 0:
             gs = draw(st.lists(st.integers(1, 5), min_size=2, max_size=3, unique=True))
             ops.append(["par", [[draw(st.sampled_from(["sub", "sub", "unsub"])), g, draw(answer)] for g in gs]])
-        elif kind == "startup":
+        elif kind in ("startup", "wipe-startup"):
             gs = draw(st.lists(st.integers(1, 5), max_size=4, unique=True))
-            ops.append(["startup", gs, draw(st.lists(answer, max_size=4))])
+            ops.append([kind, gs, draw(st.lists(answer, max_size=4))])
         else:
             ops.append([kind, draw(st.integers(1, 5)), draw(answer)])
     plan = {"v": draw(st.sampled_from([4, 8, 13, 14])), "size": size, "table": [list(x) for x in table], "ops": ops}
